@@ -70,6 +70,14 @@ def with_repeats(rnd, pts, prob=0.3):
     return out
 
 
+def far_offset(rnd, dim):
+    """geometry far from the origin: half of the records are translated by up to 2^17 lattice units (exact in f64)"""
+    if rnd.random() < 0.5:
+        return [0, 0, 0]
+    pick = lambda: rnd.choice((0, 1000, -4096, 65536, -100000, 131072))
+    return [pick(), pick(), pick() if dim == 3 else 0]
+
+
 def cum(pts):
     c = [0]
     for a, b in zip(pts, pts[1:]):
@@ -95,7 +103,8 @@ def gen_c01_random(rnd, tier):
             ls += [[2 * k, -1], [2 * k, 0], [2 * k, 1]]
         fs = [rnd.randint(-1, tot + 1) for _ in range(20)] + [0, tot]
         out.append({'m': 'curve', 'op': 'stations', 'dim': dim, 'tolU': 0, 'fc': fc, 'sc': rnd.choice((0, -10, 4, -3, 7, -20, 12)),
-                    'pts': pts, 'ls': ls, 'fs': fs, 'nz': rnd.choice((0, 0, 1))})        # nz: zero lengths handed over as -0.0
+                    'pts': pts, 'ls': ls, 'fs': fs, 'nz': rnd.choice((0, 0, 1)),        # nz: zero lengths handed over as -0.0
+                    'off': far_offset(rnd, dim)})
         if dim == 2 and rnd.random() < 0.3:
             # the same curve obtained as a DERIVED object: built from the opposite listing and reversed()
             rec = dict(out[-1])
@@ -147,7 +156,7 @@ def gen_c05_random(rnd, tier):
         if mode == 'spacing' and dim == 3 and k >= L2:
             continue
         out.append({'m': 'curve', 'op': 'resample', 'dim': dim, 'pts': pts, 'fc': fc, 'sc': rnd.choice((0, -10, 4, -3, 7, -20, 12)),
-                    'tolU': 0, 'mode': mode, 'n': k})
+                    'tolU': 0, 'mode': mode, 'n': k, 'off': far_offset(rnd, dim)})
     return out
 
 
@@ -253,5 +262,6 @@ def gen_c01_free(rnd, tier):
                 fc = False
         ne = len(pts) - 1 + (1 if fc else 0)
         req = [[e, k] for e in range(ne) for k in (0, 1, 3, 4, 7, 8)]
-        out.append({'m': 'curve', 'op': 'free', 'dim': dim, 'tolU': 0, 'fc': fc, 'sc': rnd.choice((0, -10, 4, -20, 12)), 'pts': pts, 'req': req})
+        out.append({'m': 'curve', 'op': 'free', 'dim': dim, 'tolU': 0, 'fc': fc, 'sc': rnd.choice((0, -10, 4, -20, 12)), 'pts': pts, 'req': req,
+                    'off': far_offset(rnd, dim)})
     return out
